@@ -184,6 +184,20 @@ class AtomsEngine(Engine):
                 "ops": [],
                 **({"locale": "C"} if (i // 16) % 4 == 3 else {}),
             }
+        n_int = 32
+        if n_sweep <= i < n_sweep + n_int:
+            # interruption sweep over FIRST lookups: state that a lookup builds up is only written
+            # once per element and process, so every element is looked up exactly once per run and
+            # interrupted at a line boundary drawn for (run, element); the same lookup is then made
+            # again (judged).  Over the sweep runs this samples about a fifth of all (element, line
+            # boundary) pairs, i.e. every kind of boundary many times.
+            import random
+
+            r = random.Random(9000 + i)
+            ops = []
+            for row, name in enumerate(t.w_order):
+                ops.append({"c": 0, "op": "atom", "name": name, "interrupt": r.randrange(3 * (row + 1) + 45)})
+            return {"kind": "history", "callers": 1, "ops": ops}
         callers = rng.choice([1, 1, 2, 2, 3])
         ops = []
         n_ops = rng.randrange(2, 13)
@@ -281,6 +295,16 @@ class AtomsEngine(Engine):
         kind = op["op"]
         ctx.step(f"{ctx.caller}:{kind}" + ("+F" if op.get("fault") else "") +
                  ("+P" if op.get("preempt") else ""))
+        if kind == "clear_cache":
+            # the caller empties the lookup caches (lru_cache.cache_clear is public API): the next
+            # lookup scans the tables again, like the first lookup of a fresh process
+            import scippneutron.atoms as atoms
+
+            for f in (atoms.Atom.for_isotope, atoms.ScatteringParams.for_isotope):
+                cc = getattr(f, "cache_clear", None)
+                if cc:
+                    cc()
+            return
         if kind == "burst":
             t = _tables()
             order = {"sp": t.sp_order, "atom_w": t.w_order, "atom_m": t.m_order}[op["what"]]
